@@ -58,6 +58,9 @@ module Bp = struct
               else
                 Printf.sprintf "tb=%s back=%s" (tb_of args) (toks (List.map (from_base_safe Linux b) raw))
             end
+            else if op = "FileR" || op = "FileW" then
+              (* open with ToBasePath of the name; every path the base file returns comes back through fromBasePath *)
+              Printf.sprintf "tb=%s back=%s" (tb_of [List.hd args]) (toks (List.map (from_base_safe Linux b) raw))
             else if List.mem op first || (op = "Glob" && not (has_meta (string_of_str (List.hd args)))) then
               Printf.sprintf "tb=%s back=-" (tb_of [List.hd args])
             else if List.mem op refused then "tb= back=-"
